@@ -28,6 +28,62 @@ func runC15(c *Ctx) {
 	r.Rule("orientation", "Checksum on 0/1/2-byte inputs and the store order of its callers yield the RFC 1071 bytes", 5)
 	r.Rule("coverage", "bytes covered by the IPv4 header checksum and the ICMPv6 pseudo-header", 2)
 	r.Rule("safety", "Checksum is in bounds for all lengths and terminates", 1)
+	// the IPv4 header is sealed by SetPayload / AppendPayload: no function that calls one of them writes into the header
+	// afterwards (a TTL, TOS or flag patched in after the checksum was stored leaves a header that no longer sums to zero)
+	r.Rule("sealed", "no write into an IPv4 header after SetPayload/AppendPayload stored its checksum", 6)
+	{
+		kgs := core.NewKeyGen()
+		for _, fn := range c.P.LibFunctions() {
+			for _, site := range callsIn(fn, func(n string, _ ssa.CallInstruction) bool {
+				return n == "(github.com/irai/packet.IP4).SetPayload" || n == "(github.com/irai/packet.IP4).AppendPayload" || n == "(packet.IP4).SetPayload" || n == "(packet.IP4).AppendPayload"
+			}) {
+				call := site.(ssa.Instruction)
+				var roots []ssa.Value
+				if v := site.Value(); v != nil {
+					roots = append(roots, v)
+					if refs := v.Referrers(); refs != nil {
+						for _, rf := range *refs {
+							if ex, ok := rf.(*ssa.Extract); ok && ex.Index == 0 {
+								roots = append(roots, ex)
+							}
+						}
+					}
+				}
+				if len(site.Common().Args) > 0 {
+					roots = append(roots, site.Common().Args[0])
+				}
+				st, det := core.Proved, ""
+				core.EachInstr(fn, func(j ssa.Instruction) {
+					var target ssa.Value
+					what := ""
+					switch t := j.(type) {
+					case *ssa.Store:
+						if ia, ok := t.Addr.(*ssa.IndexAddr); ok {
+							if k, isK := ia.Index.(*ssa.Const); isK && k.Int64() < 20 {
+								target, what = ia.X, fmt.Sprintf("store to byte %d", k.Int64())
+							}
+						}
+					case ssa.CallInstruction:
+						n := core.CalleeName(t)
+						if strings.Contains(n, "bigEndian).Put") && len(t.Common().Args) > 1 {
+							target, what = t.Common().Args[1], n
+						}
+					}
+					if target == nil {
+						return
+					}
+					for _, rt := range roots {
+						if derivedFromValue(target, rt, 0) && reachesWithout(call, j, func(ssa.Instruction) bool { return false }) {
+							st = core.Violated
+							det = what + " at " + c.P.Pos(core.PosOf(j)) + " writes into the IPv4 header after " + core.CalleeName(site) + " stored its checksum: the header emitted no longer sums to zero"
+						}
+					}
+				})
+				r.Add(core.Obligation{Rule: "sealed", Key: strings.TrimSuffix(kgs.Key("sealed "+core.FuncName(fn)), "#0"), Func: core.FuncName(fn), Pos: c.P.Pos(core.PosOf(call)), Status: st,
+					Basis: "no store into bytes 0-19 of the header reachable from the call", Detail: det})
+			}
+		}
+	}
 
 	cs := c.A.Func("", "Checksum")
 	if cs == nil {
